@@ -3,14 +3,13 @@ CONSTANTS
  Rules = {"ra","rb","xa"}
  ImpPats = {"*","r*"}
  ExpKinds = {"all","none","r*"}
- ReKinds = {"none","*a"}
+ ReKinds = {"none","r*"}
  Types = {"rules","templates"}
  MaxOps = 3
- MaxDecl = 2
+ MaxDecl = 3
  NoCleanup = FALSE
-INIT Init
+INIT InitRe
 NEXT Next
-CONSTRAINT Bound
 VIEW View
 ACTION_CONSTRAINT Edge
 CHECK_DEADLOCK FALSE
